@@ -120,11 +120,15 @@ def judge_module(items, path, acc, scratch=None, modname=None):
       if cp[i]["status"] != "ok":
         continue
       in_stub = split is not None and i < split
+      if i < h.get("probe_from", 0):
+        continue
       ref = f"{modname}.{H.cname(pfx, i)}" if in_stub else H.cname(pfx, i)
       for j, owner in sorted(cp[i]["owners"].items()):
         exp = H.mname(pfx, owner, j)
         lines.append(f"{pfx}p{i}_{j} = {ref}.a{j}")
         probes.append((f"{pfx}p{i}_{j}", n, i, j, "class", exp))
+        if h.get("class_probes_only"):
+          continue
         lines.append(f"{pfx}q{i}_{j} = {ref}().a{j}")
         probes.append((f"{pfx}q{i}_{j}", n, i, j, "instance", exp))
   src = "\n".join(lines) + "\n"
@@ -270,6 +274,25 @@ def _judge_stub_mros(items, cps, acc, scratch, modname):
               expected=[g.replace(pfx, "") for g in want])})
 
 
+def judge_stub_mros_only(items, acc, scratch, modname):
+  """Cheap path: the hierarchies (attribute-less) are written to one .pyi, loaded by pytype's
+  loader and only mro.GetBasesInMRO of every class is compared with __mro__ (the loader's own
+  VerifyContainers pass and these calls all go through the monitored MROMerge)."""
+  cps = [O.cpython_eval(h, pfx, check_attrs=False) for pfx, h, _ in items]
+  pyi = []
+  for n, (pfx, h, _) in enumerate(items):
+    for i in range(len(h["classes"])):
+      if cps[n][i]["status"] == "skipped":
+        continue
+      pyi.append(H.class_stmt_pyi(h, i, pfx))
+      acc.count("stub classes written for the GetBasesInMRO-only slice")
+      _case_fp(acc, "stubmro", h, i, None)
+  with open(os.path.join(scratch, modname + ".pyi"), "w") as f:
+    f.write("\n".join(pyi) + "\n")
+  _judge_stub_mros(items, cps, acc, scratch, modname)
+  acc.count("modules loaded (stubmro)")
+
+
 # --------------------------------------------------------------------------
 # child
 
@@ -305,6 +328,13 @@ def child(arg):
     for prefix, leaves in arg["families"]:
       for k in range(0, max(1, len(leaves)), LEAF_CHUNK):
         hs.append(H.family_to_hierarchy(prefix, leaves[k:k + LEAF_CHUNK], rng))
+  if "targeted" in arg:
+    for prefix, leaves in arg["targeted"]:
+      if arg["kind"] == "stubmro":
+        hs.append(H.bare_hierarchy(prefix, leaves))
+      else:
+        for k in range(0, len(leaves), 40):
+          hs.append(H.pair_attr_hierarchy(prefix, leaves[k:k + 40]))
   if "random" in arg:
     for _ in range(arg["random"]["count"]):
       hs.append(H.random_hierarchy(rng, arg["random"]["max_classes"], 3, last_ok=O.last_ok))
@@ -313,7 +343,7 @@ def child(arg):
   path = arg["kind"]
   budget = arg.get("classes_per_module", 110)
   scratch = None
-  if path == "stub":
+  if path in ("stub", "stubmro"):
     from vf import boot
     scratch = os.path.join(boot.BUILD, "scratch", f"c10-{os.getpid()}")
     os.makedirs(scratch, exist_ok=True)
@@ -324,13 +354,18 @@ def child(arg):
     def flush():
       nonlocal batch, ncls, mods
       if batch:
-        judge_module(batch, path, acc, scratch, f"c10stub{mods}")
+        if path == "stubmro":
+          judge_stub_mros_only(batch, acc, scratch, f"c10stub{mods}")
+        else:
+          judge_module(batch, path, acc, scratch, f"c10stub{mods}")
         mods += 1
       batch, ncls = [], 0
 
     for h in hs:
       n = len(h["classes"])
-      if path == "stub":
+      if path == "stubmro":
+        split = n
+      elif path == "stub":
         mode = arg.get("split", "random")
         if mode == "all":
           split = n
@@ -413,6 +448,29 @@ def _tasks(tier, seed):
         else:
           add("stub", f"stub-all/{alphabet}{n}/{b}", families=chunk, split="all")
           add("stub", f"stub-prefix/{alphabet}{n}/{b}", families=chunk, split="prefix", prefix_len=n - 1)
+  # targeted slice: 5 and 6 classes, 2-3 roots, middle classes with 1-2 bases, EVERY ordered
+  # selection of 2-3 bases for the last class; one attribute per pair of prefix classes so that
+  # any swap of two ancestors in the MRO is visible through `Leaf.attr`
+  t5 = [[p, H.targeted_leaves(4)] for p in H.targeted_prefixes(5, O.legal_prefix)]
+  t6 = [[p, H.targeted_leaves(5)] for p in H.targeted_prefixes(6, O.legal_prefix)]
+  n6_src, n6_stub = (60, 0) if tier == "quick" else (len(t6), 120)
+  t6_src = rng.sample(t6, n6_src)
+  t6_stub = rng.sample(t6, n6_stub)
+  info["targeted: 2-3 roots, middle classes 1-2 bases, last class every ordered 2-3 bases"] = {
+      "5 classes": {"prefixes": len(t5), "leaves_each": len(t5[0][1]), "src": "all", "stub-all": "all",
+                    "GetBasesInMRO-only": "all"},
+      "6 classes": {"prefixes": len(t6), "leaves_each": len(t6[0][1]), "src": f"{n6_src} prefixes (seeded)",
+                    "stub-all": f"{n6_stub} prefixes (seeded)", "GetBasesInMRO-only": "all"}}
+  for b, chunk in enumerate(_chunks(t5, 10)):
+    add("src", f"src/tgt5/{b}", targeted=chunk)
+    add("stub", f"stub-all/tgt5/{b}", targeted=chunk, split="all")
+  for b, chunk in enumerate(_chunks(t6_src, 10)):
+    add("src", f"src/tgt6/{b}", targeted=chunk)
+  for b, chunk in enumerate(_chunks(t6_stub, 10)):
+    add("stub", f"stub-all/tgt6/{b}", targeted=chunk, split="all")
+  add("stubmro", "stubmro/tgt5/0", targeted=t5, classes_per_module=3000)
+  for b, chunk in enumerate(_chunks(t6, 64)):
+    add("stubmro", f"stubmro/tgt6/{b}", targeted=chunk, classes_per_module=3000)
   # the smaller exhaustive slices (1 and 2 classes, full alphabet) in one task each
   small = _families(1, 3, "full") + _families(2, 3, "full")
   add("src", "src/full1-2/0", families=small)
@@ -431,7 +489,10 @@ def run(tier, seed):
             "for classes 0..n-2 ('full' alphabet: <=3 bases, repetition allowed, over earlier classes + explicit "
             "object; 'distinct': ordered selections of <=3 distinct earlier classes), followed by EVERY base list "
             "of the alphabet for class n-1 as sibling leaves; (2) random hierarchies of 3..8 classes (diamonds, "
-            "wide, duplicate bases, object in odd positions, inconsistent orders; refused classes stay leaves). "
+            "wide, duplicate bases, object in odd positions, inconsistent orders; refused classes stay leaves); "
+            "(3) targeted 5/6-class families (2-3 roots, middle classes with 1-2 bases, every ordered selection of "
+            "2-3 bases for the last class) with one attribute per pair of ancestors, plus a GetBasesInMRO-only "
+            "pass over all of them. "
             "Each class defines a random subset of a0..a3 with a marker type unique to (class, attribute). "
             "evaluations = class-statement verdicts + attribute probes + GetBasesInMRO comparisons. A case is "
             "(path, judged class with its ancestor closure incl. attribute placement, which ancestors are stub "
